@@ -170,10 +170,24 @@ def _canon_params(f):
                 _CANON = json.load(fh)
         except OSError:
             _CANON = {}
-    c = _CANON.get(f.qual)
+    c = _CANON.get('functions', {}).get(f.qual)
     if c is not None and len(c) == len(f.params()):
         return c
     return None
+
+
+def is_new_function(f):
+    """Did this function not exist on the pinned tree?  New functions are refactoring artefacts from the rules' point of view:
+    they are inlined by the path simulator and looked through by writer / who-may-call enumeration."""
+    _canon_params(f)
+    return bool(_CANON.get('functions')) and f.qual not in _CANON['functions'] and not f.is_module_body
+
+
+def is_new_module_var(module, name):
+    if _CANON is None:
+        return False
+    mv = _CANON.get('module_vars', {})
+    return module.name in mv and name not in mv[module.name]
 
 
 def _is_mutable_display(sym):
@@ -234,6 +248,8 @@ class PathSim:
         self.inline_depth = inline_depth
         self.max_paths = max_paths
         self.bool_returns = bool_returns
+        self.auto_inline = True
+        self._gen_ctx = {}
         self._count = 0
         self._fresh = 0
 
@@ -284,6 +300,8 @@ class PathSim:
         if isinstance(stmt, ast.Expr):
             if isinstance(stmt.value, ast.Constant):
                 return [(st, None)]
+            if isinstance(stmt.value, ast.Yield) and frame[1] in self._gen_ctx:
+                return self._exec_yield(stmt, st, frame)
             return [(s, sig) for _, s, sig in self.ev(stmt.value, st, frame)]
         if isinstance(stmt, ast.Assign):
             out = []
@@ -487,9 +505,104 @@ class PathSim:
                 raise AnalysisError('path explosion in %s' % self.func.qual)
         return out
 
+    def _generator_target(self, call, frame):
+        if not isinstance(call, ast.Call):
+            return None
+        site = self.cg.site_of(frame[0], call)
+        if site is None:
+            return None
+        ts = self.cg.targets(site)
+        if len(ts) != 1:
+            return None
+        g = next(iter(ts))
+        if g.is_module_body or not is_new_function(g):
+            return None
+        ys = [x for x in g.body_nodes() if isinstance(x, (ast.Yield, ast.YieldFrom))]
+        if not ys:
+            return None
+        for y in ys:
+            if isinstance(y, ast.YieldFrom) or not isinstance(getattr(y, '_parent', None), ast.Expr):
+                raise AnalysisError('generator %s uses yield in an unsupported way' % g.qual)
+        return g, site
+
+    def exec_for_generator(self, stmt, g, site, st, frame):
+        """`for x in gen(...)` where gen is a freshly extracted generator: the generator body is run as a coroutine, each
+        `yield v` runs the loop body with x = v."""
+        f = frame[0]
+        call = stmt.iter
+        out = []
+        # evaluate receiver and arguments
+        recv_list = [(None, st, None)]
+        if isinstance(call.func, ast.Attribute):
+            recv_list = self.ev(call.func.value, st, frame)
+        for recv, s0, sig in recv_list:
+            if sig is not None:
+                out.append((s0, sig))
+                continue
+            rs = [([], s0, None)]
+            for a in call.args:
+                nrs = []
+                for acc, s1, sg in rs:
+                    if sg is not None:
+                        nrs.append((acc, s1, sg))
+                        continue
+                    for asym, s2, sg2 in self.ev(a, s1, frame):
+                        nrs.append((acc + [asym], s2, sg2))
+                rs = nrs
+            for acc, s1, sg in rs:
+                if sg is not None:
+                    out.append((s1, sg))
+                    continue
+                kw = {}
+                nf = self._new_frame(g, frame[2] + 1)
+                self._bind_params(g, call, recv, acc, kw, s1, nf, site)
+                base_loops = s1.loops
+                self._gen_ctx[nf[1]] = (stmt, frame, base_loops)
+                for s2, sig2 in self.exec_block(g.node.body, s1, nf):
+                    s2.loops = base_loops
+                    if sig2 is None or (isinstance(sig2, tuple) and sig2[0] == 'return'):
+                        s2.events.append(Event('loop-exit', stmt, f, text='for-exit', extra=sum(1 for e in s2.events if e.kind == 'loop-iter' and e.node is stmt), ep=s2.ep, loops=base_loops))
+                        out.extend(self.exec_block(stmt.orelse, s2, frame))
+                    elif isinstance(sig2, tuple) and sig2[0] == 'genbreak':
+                        s2.events.append(Event('loop-break', stmt, f, text='for-break', extra=0, ep=s2.ep, loops=base_loops))
+                        out.append((s2, None))
+                    elif isinstance(sig2, tuple) and sig2[0] == 'outer':
+                        out.append((s2, sig2[1]))
+                    else:
+                        out.append((s2, sig2))
+        return out
+
+    def _exec_yield(self, stmt, st, frame):
+        loop, oframe, base_loops = self._gen_ctx[frame[1]]
+        f = oframe[0]
+        out = []
+        val = stmt.value.value
+        vals = [(ast.Constant(value=None), st, None)] if val is None else self.ev(val, st, frame)
+        for sym, s, sig in vals:
+            if sig is not None:
+                out.append((s, sig))
+                continue
+            n = sum(1 for e in s.events if e.kind == 'loop-iter' and e.node is loop)
+            gen_loops = s.loops
+            s.loops = gen_loops + ((id(loop), n),)
+            s.events.append(Event('loop-iter', loop, f, text='for-iter', extra=n, value=sym, ep=s.ep, loops=s.loops))
+            for s1, sg in self.assign(loop.target, sym, s, oframe, loop, quiet=True):
+                for s2, sig2 in self.exec_block(loop.body, s1, oframe):
+                    s2.loops = gen_loops
+                    if sig2 is None or sig2 == 'continue':
+                        out.append((s2, None))
+                    elif sig2 == 'break':
+                        out.append((s2, ('genbreak',)))
+                    else:
+                        out.append((s2, ('outer', sig2)))
+        return out
+
     def exec_for(self, stmt, st, frame):
         f = frame[0]
         out = []
+        gt = self._generator_target(stmt.iter, frame) if self.auto_inline else None
+        if gt is not None:
+            return self.exec_for_generator(stmt, gt[0], gt[1], st, frame)
         for itsym, s0, sig in self.ev(stmt.iter, st, frame):
             if sig is not None:
                 out.append((s0, sig))
@@ -711,7 +824,14 @@ class PathSim:
             v = st.env.get((frame[1], e.id))
             if v is not None and not _is_mutable_display(v):
                 return [(v, st, None)]
-            return [(ast.Name(id=e.id, ctx=ast.Load()), st, None)]
+            if v is None:
+                c = self._new_module_const(f, e.id)
+                if c is not None:
+                    return [(c, st, None)]
+            n_ = ast.Name(id=e.id, ctx=ast.Load())
+            if v is not None:
+                n_._origin = v          # a local bound to a fresh container display (kept by name because it is mutated)
+            return [(n_, st, None)]
         if isinstance(e, ast.IfExp) and self.fork_ifexp:
             out = []
             for v, s, sig in self.cond(e.test, st, frame):
@@ -837,6 +957,16 @@ class PathSim:
                 out.append((new, s, None))
         return out
 
+    def _new_module_const(self, f, name):
+        """Literal value of a module-level constant that did not exist on the pinned tree (hoisted literal)."""
+        if name in f.params():
+            return None
+        r = self.repo.lookup(f.module, name)
+        if r and r[0] == 'var' and r[1] is not None and isinstance(r[1], ast.Constant) and is_new_module_var(r[3], name):
+            _canon_params(f)
+            return r[1]
+        return None
+
     def _is_pure_call(self, e, site):
         fn = e.func
         if isinstance(fn, ast.Name) and fn.id in PURE_BUILTINS and (site is None or site.kind == 'builtin'):
@@ -893,9 +1023,18 @@ class PathSim:
                 if sg is not None:
                     out.append((None, s2, sg))
                     continue
+                targets = tuple(self.cg.targets(site)) if site else ()
+                if len(targets) == 1 and kw and not any(isinstance(a_, ast.Starred) for a_ in acc) and '**' not in kw:
+                    g_ = targets[0]
+                    ps_ = g_.params()
+                    if g_.cls is not None and not g_.is_static() and (site.kind == 'ctor' or isinstance(e.func, ast.Attribute)):
+                        ps_ = ps_[1:]
+                    acc = list(acc)
+                    kw = dict(kw)
+                    while len(acc) < len(ps_) and ps_[len(acc)] in kw:
+                        acc.append(kw.pop(ps_[len(acc)]))
                 sym = ast.Call(func=fsym, args=acc,
                                keywords=[ast.keyword(arg=(None if k == '**' else k), value=v) for k, v in kw.items()])
-                targets = tuple(self.cg.targets(site)) if site else ()
                 pure = self._is_pure_call(e, site)
                 if not pure:
                     s2.ep += 1
@@ -916,7 +1055,8 @@ class PathSim:
                 g = None
                 if len(targets) == 1:
                     g = next(iter(targets))
-                if g is not None and g in self.inline and frame[2] < self.inline_depth and not g.is_module_body:
+                auto = g is not None and self.auto_inline and is_new_function(g) and not any(isinstance(x, (ast.Yield, ast.YieldFrom)) for x in ast.walk(g.node))
+                if g is not None and (g in self.inline or auto) and frame[2] < self.inline_depth and not g.is_module_body:
                     out.extend(self._inline(g, e, sym, recv, acc, kw, s2, frame, site))
                 else:
                     out.append((sym, s2, None))
@@ -924,6 +1064,28 @@ class PathSim:
 
     def _inline(self, g, call, sym, recv, args, kw, st, frame, site):
         nf = self._new_frame(g, frame[2] + 1)
+        self._bind_params(g, call, recv, args, kw, st, nf, site)
+        st.events.append(Event('enter', call, g, text='enter ' + g.qual, ep=st.ep, loops=st.loops))
+        out = []
+        for s, sig in self.exec_block(g.node.body, st, nf):
+            s.events.append(Event('leave', call, g, text='leave ' + g.qual, ep=s.ep, loops=s.loops))
+            if sig is None:
+                rv = ast.Constant(value=None)
+                if site is not None and site.kind == 'ctor':
+                    rv = sym
+                out.append((rv, s, None))
+            elif isinstance(sig, tuple) and sig[0] == 'return':
+                rv = sig[1]
+                if site is not None and site.kind == 'ctor':
+                    rv = sym
+                out.append((rv, s, None))
+            elif isinstance(sig, tuple) and sig[0] in ('raise', 'loop-limit', 'outer', 'genbreak'):
+                out.append((None, s, sig))
+            else:
+                raise AnalysisError('stray %s leaving %s' % (sig, g.qual))
+        return out
+
+    def _bind_params(self, g, call, recv, args, kw, st, nf, site):
         params = g.params()
         vals = {}
         pos = list(args)
@@ -948,25 +1110,6 @@ class PathSim:
                 vals[p] = defaults.get(p, ast.Name(id='<unbound %s>' % p, ctx=ast.Load()))
         for p, v in vals.items():
             st.env[(nf[1], p)] = v
-        st.events.append(Event('enter', call, g, text='enter ' + g.qual, ep=st.ep, loops=st.loops))
-        out = []
-        for s, sig in self.exec_block(g.node.body, st, nf):
-            s.events.append(Event('leave', call, g, text='leave ' + g.qual, ep=s.ep, loops=s.loops))
-            if sig is None:
-                rv = ast.Constant(value=None)
-                if site is not None and site.kind == 'ctor':
-                    rv = sym
-                out.append((rv, s, None))
-            elif isinstance(sig, tuple) and sig[0] == 'return':
-                rv = sig[1]
-                if site is not None and site.kind == 'ctor':
-                    rv = sym
-                out.append((rv, s, None))
-            elif isinstance(sig, tuple) and sig[0] in ('raise', 'loop-limit'):
-                out.append((None, s, sig))
-            else:
-                raise AnalysisError('stray %s leaving %s' % (sig, g.qual))
-        return out
 
     # -- conditions -----------------------------------------------------------------------------
     def cond(self, e, st, frame):
